@@ -196,3 +196,32 @@ Proof.
   - inversion H; subst. split; [lia|]. split; [lia|]. split; [|discriminate].
     intros e0 He. inversion He; subst. left. reflexivity.
 Qed.
+
+(* ---- the assignment of the SyncGroup answer plays no part: heartbeats do not depend on it ---- *)
+Definition erase_asg (l : label) : label := match l with LSync a _ => LSync a [] | _ => l end.
+
+Lemma step_erase_asg : forall s l, step s (erase_asg l) = step s l.
+Proof. intros s l. destruct l; reflexivity. Qed.
+
+Lemma run_erase_asg : forall ls s, run s (map erase_asg ls) = run s ls.
+Proof.
+  induction ls as [|l t IH]; intro s; cbn [map run]; [reflexivity|].
+  rewrite step_erase_asg. destruct (step s l); [apply IH|reflexivity].
+Qed.
+
+Lemma heartbeat_started_and_enabled : forall w ls s, run (init w) ls = Some s ->
+  (pc s = PStartHB ->
+     exists s' f, step s LStartHB = Some s' /\ nth_error (fns s') (length (fns s)) = Some f /\
+                  is_hb f = true /\ f_acc f = true /\ f_gen f = cur s /\ f_st f = FRunning) /\
+  (forall i f a, nth_error (fns s) i = Some f -> is_hb f = true -> running f = true ->
+     exists s', step s (LHbTick i a) = Some s').
+Proof.
+  intros w ls s R. apply Inv_run in R. destruct R as [P [H1 H2] B]. split.
+  - intro Epc. destruct (g2_hb _ _ _ B Epc) as (g & Eg & Ec & _).
+    unfold step. rewrite P, Epc. unfold do_start, cur. rewrite Eg, Ec. cbn [option_map].
+    eexists. eexists. split; [reflexivity|].
+    cbn [fns set_pc ev set_fns set_gens]. rewrite nth_error_app2 by lia. rewrite Nat.sub_diag. cbn.
+    repeat split; reflexivity.
+  - intros i f a Hf Hh Hr. unfold step. rewrite P, Hf, Hr, Hh. cbn [andb].
+    destruct (H1 _ _ Hf) as (g & Eg & _). rewrite Eg. destruct a; eexists; reflexivity.
+Qed.
